@@ -1057,16 +1057,45 @@ func TestVerifBlockNtfnsFree(t *testing.T) {
 	if maxEv < minEv {
 		maxEv = minEv
 	}
+	profile := os.Getenv("VERIF_FREE_PROFILE")
+	// VERIF_FREE_SCREEN=n: a large batch; only runs whose outcome is not the
+	// plain one (a receive sequence that is not consecutive, a blocked call, a
+	// run that did not reach quiescence, a driver error) and every n-th run
+	// are written out for judging.  The others are counted.
+	screen, _ := strconv.Atoi(os.Getenv("VERIF_FREE_SCREEN"))
 	results := make([]bnPathOut, runs)
+	keep := make([]bool, runs)
 	bnParallel(runs, func(i int) {
 		defer func() {
 			if r := recover(); r != nil {
 				results[i].ID = i
 				results[i].Steps = []bnStepOut{}
 				results[i].Error = fmt.Sprintf("driver panic: %v\n%s", r, bnDump())
+				keep[i] = true
 			}
 		}()
-		results[i] = bnFreeRun(i, seed*1000003+int64(i)*7919+1, minEv, maxEv, os.Getenv("VERIF_FREE_PROFILE"))
+		r := bnFreeRun(i, seed*1000003+int64(i)*7919+1, minEv, maxEv, profile)
+		k := screen <= 0 || i%screen == 0 || r.Error != "" || len(r.Steps) == 0 ||
+			r.Steps[len(r.Steps)-1].Act.Op != "Quiesce"
+		if !k {
+			for _, rv := range r.Steps[len(r.Steps)-1].Obs.Recv {
+				for j := 1; j < len(rv); j++ {
+					if rv[j] != rv[j-1]+1 {
+						k = true
+					}
+				}
+			}
+		}
+		keep[i] = k
+		if k {
+			results[i] = r
+		}
 	})
-	bnWrite(t, outFn, results)
+	var kept []bnPathOut
+	for i := range results {
+		if keep[i] {
+			kept = append(kept, results[i])
+		}
+	}
+	bnWrite(t, outFn, kept)
 }
